@@ -581,6 +581,19 @@ def main(out_path):
     L.append(f"Definition FILELOCK_DROP_UNLOCKS : bool := {'true' if drop_unlocks else 'false'}.")
     L.append("")
 
+    # --- [policy] table keys (serialization.rs mod policy)
+    ser = strip_comments(read("src/serialization.rs"))
+    polmod = item_body(ser, r"\bpub\s+mod\s+policy\s*\{", "serialization::policy")
+    if not re.search(r"split_once\(\s*VERSION_SEPARATOR\s*\)", polmod) or not re.search(r"crate_version\s*\.\s*parse\(\)", polmod):
+        raise TranslateError("policy keys are no longer parsed by split_once(VERSION_SEPARATOR) + VetVersion::from_str")
+    if const_str(polmod, "VERSION_SEPARATOR") != ":":
+        raise TranslateError("policy key separator is no longer ':'")
+    full = bool(re.search(r"for\s*\(\s*version\s*,\s*entry\s*\)\s*in\s+version\s*\{\s*ret\s*\.\s*insert\(\s*"
+                          r"format!\(\s*\"\{name\}\{VERSION_SEPARATOR\}\{version\}\"\s*\)\s*,\s*entry\s*,?\s*\)", polmod))
+    L.append("(* the key of a versioned policy entry is written from the whole VetVersion (semver and git revision) *)")
+    L.append(f"Definition POLICY_KEY_USES_FULL_VERSION : bool := {'true' if full else 'false'}.")
+    L.append("")
+
     # --- storage constants
     m = re.search(r"let\s+max_end_date\s*=\s*today\s*\+\s*chrono::Months::new\((\d+)\)", storage)
     if not m:
